@@ -1,6 +1,8 @@
 package lhsim
 
 import (
+	"sort"
+	"testing/synctest"
 	"time"
 
 	"github.com/orbs-network/lean-helix-go/services/electiontrigger"
@@ -137,37 +139,78 @@ func (c *workerCtrl) shutdownStep() bool {
 // Harness side of H3 (yield points)
 
 type yieldRec struct {
-	point string
-	ch    chan struct{}
+	point   string
+	h, v    uint64
+	ch      chan struct{}
+	arrival int
+	seen    bool // the harness has already decided to keep holding it
 }
 
-func (w *World) installYieldPolicy(policy func(point string) bool) {
-	w.atHook = func(p string) {
-		if policy != nil && policy(p) {
-			y := &yieldRec{p, make(chan struct{})}
-			ys, _ := w.extra["yields"].([]*yieldRec)
-			w.extra["yields"] = append(ys, y)
-			w.probe("yield-held:" + p)
-			<-y.ch
-		}
+// atHV is hook H3: a fired election-timer goroutine parks here (when the scenario asked for it) until the
+// harness releases it. Identity (height, view) makes the release order independent of the runtime's choice
+// among goroutines that became runnable at the same fake instant.
+func (w *World) atHV(point string, h, v uint64) {
+	if !w.yieldAll {
+		return
 	}
+	w.yieldN++
+	y := &yieldRec{point: point, h: h, v: v, ch: make(chan struct{}), arrival: w.yieldN}
+	w.yields = append(w.yields, y)
+	<-y.ch
 }
 
 func (w *World) heldYields() []*yieldRec {
-	ys, _ := w.extra["yields"].([]*yieldRec)
+	ys := append([]*yieldRec(nil), w.yields...)
+	sort.SliceStable(ys, func(i, j int) bool {
+		if ys[i].h != ys[j].h {
+			return ys[i].h < ys[j].h
+		}
+		if ys[i].v != ys[j].v {
+			return ys[i].v < ys[j].v
+		}
+		return false
+	})
 	return ys
 }
 
-func (w *World) releaseYield(i int) {
-	ys := w.heldYields()
-	y := ys[i]
-	w.extra["yields"] = append(append([]*yieldRec(nil), ys[:i]...), ys[i+1:]...)
+func (w *World) releaseYieldRec(y *yieldRec) {
+	for i, x := range w.yields {
+		if x == y {
+			w.yields = append(w.yields[:i], w.yields[i+1:]...)
+			break
+		}
+	}
 	close(y.ch)
 }
 
+func (w *World) releaseYield(i int) { w.releaseYieldRec(w.heldYields()[i]) }
+
 func (w *World) releaseYields() {
-	for len(w.heldYields()) > 0 {
-		w.releaseYield(0)
+	for len(w.yields) > 0 {
+		w.releaseYieldRec(w.heldYields()[0])
+		synctest.Wait()
+	}
+}
+
+// settleYields: decide about every newly parked timer goroutine, in (height, view) order. keep == nil releases all.
+func (w *World) settleYields(keep func(y *yieldRec) bool) {
+	for {
+		var next *yieldRec
+		for _, y := range w.heldYields() {
+			if !y.seen {
+				next = y
+				break
+			}
+		}
+		if next == nil {
+			return
+		}
+		if keep != nil && keep(next) {
+			next.seen = true
+			continue
+		}
+		w.releaseYieldRec(next)
+		synctest.Wait()
 	}
 }
 
